@@ -45,8 +45,8 @@ TIE = {
     'gen_dir': 'MalVerif/Py/GenLang',
     'gen_modules': MODULE_ORDER,
     'order': 30,
-    'chain': ['MalVerif.Py.AbsLang', 'MalVerif.Py.TieLang', 'MalVerif.Py.TieLangGraph',
-              'MalVerif.PropsGen.C03', 'MalVerif.PropsGen.C15'],
+    'chain': ['MalVerif.Py.AbsLang', 'MalVerif.Py.TieLang', 'MalVerif.PropsGen.C03',
+              'MalVerif.Py.AbsLangGraph', 'MalVerif.Py.TieLangGraph', 'MalVerif.PropsGen.C15'],
     'needs': {
         'C03': ['MalVerif.Py.TieLang', 'MalVerif.PropsGen.C03'],
         'C15': ['MalVerif.Py.TieLangGraph', 'MalVerif.PropsGen.C15'],
